@@ -8,7 +8,7 @@ from vlib.par import pmap
 from vlib.tlc import MachineryError
 
 UNDECIDED = ["planck / planck_wavelength / planck_wavenumber (positivity, monotonicity, limits) and radiance2planckTb",
-             "snell", "fresnel"]
+             "snell / fresnel at angles whose sine and cosine are not both rational, and for complex n2 at oblique incidence"]
 
 
 def arr(seq):
@@ -37,12 +37,15 @@ def replay(col, case):
             col.bump("standin_constants_not_effective")
             return
         def chk(label, fn, want, *a):
+            keep = [np.array(v, copy=True) for v in a]
             try:
                 got = fn(*a)
             except Exception as ex:
                 col.violation(label + "-raises-" + type(ex).__name__, dict(rep, observed=repr(ex)[:200]))
                 return None
             col.count(1)
+            if any(not np.array_equal(kv, np.asarray(v)) for kv, v in zip(keep, a)):
+                col.violation(label + "-overwrites-input", dict(rep))
             if not allclose(got, want):
                 col.violation(label + "-wrong-value", dict(rep, expected=np.asarray(want).tolist(), observed=np.asarray(got).tolist()))
             return got
@@ -70,12 +73,16 @@ def replay(col, case):
             for shape in ("2d", "1d", "3d"):
                 s_in = spec if shape == "2d" else spec[:, 0] if shape == "1d" else spec[:, :, None]
                 w = want_spec if shape == "2d" else want_spec[:, 0] if shape == "1d" else want_spec[:, :, None]
+                a_spec, a_grid = s_in.copy(), fg.copy()
                 try:
-                    got_spec, got_grid = fn(s_in.copy(), fg.copy())
+                    got_spec, got_grid = fn(a_spec, a_grid)
                 except Exception as ex:
                     col.violation(key + "-raises-" + type(ex).__name__ + "-" + shape, dict(rep, observed=repr(ex)[:200]))
                     continue
                 col.count(1)
+                if not np.array_equal(a_spec, s_in) or not np.array_equal(a_grid, fg):
+                    # g(f(B)) = B is a statement about the caller's B: it must still be what it was
+                    col.violation("density-%s-overwrites-input-%s" % (key, shape), dict(rep))
                 if not allclose(got_spec, w) or not allclose(got_grid, want_grid):
                     kind = "grid-not-reversed" if allclose(np.asarray(got_grid)[::-1], want_grid) else "wrong-value"
                     col.violation("density-%s-%s-%s" % (key, kind, shape), dict(rep, expected=[w.tolist(), want_grid.tolist()],
@@ -90,13 +97,134 @@ def replay(col, case):
     col.nontrivial.add(json.dumps([case["c"], case["k"], case["fg"]]))
 
 
+def theta_of(s1):
+    return float(np.degrees(np.arcsin(fl(s1))))
+
+
+def replay_snell(col, cases):
+    """All SnellProps cases at once: scalar calls, then the same catalogue as arrays / broadcast combinations."""
+    from typhon.physics import em
+    TOL = 1e-11
+    def sin_of(theta2):
+        return np.sin(np.deg2rad(np.asarray(theta2, dtype=float)))
+    def judge_snell(label, rep, got, sub):
+        got = np.asarray(got, dtype=float)
+        if got.shape != (len(sub),) and not (len(sub) == 1 and got.shape == ()):
+            col.violation("snell-wrong-shape-" + label, dict(rep, observed=list(got.shape), expected=[len(sub)]))
+            return
+        got = got.reshape(len(sub))
+        for g, c in zip(got, sub):
+            if c["critical"]:
+                continue
+            col.count(1)
+            if c["reflected"]:
+                if not np.isnan(g):
+                    col.violation("snell-no-nan-beyond-total-reflection-" + label,
+                                  dict(rep, case={k: c[k] for k in ("n1", "n2", "s1")}, observed=float(g)))
+                    return
+            elif np.isnan(g) or abs(sin_of(g) - fl(c["s2"])) > TOL:
+                col.violation("snell-law-violated-" + label, dict(rep, case={k: c[k] for k in ("n1", "n2", "s1", "s2")},
+                                                                  expected_sin_theta2=fl(c["s2"]), observed_theta2=float(g)))
+                return
+    def judge_fresnel(label, rep, got, sub):
+        rv, rh = (np.asarray(g) for g in got)
+        if rv.shape != (len(sub),) and not (len(sub) == 1 and rv.shape == ()):
+            col.violation("fresnel-wrong-shape-" + label, dict(rep, observed=list(rv.shape), expected=[len(sub)]))
+            return
+        rv, rh = rv.reshape(len(sub)), rh.reshape(len(sub))
+        for v, h, c in zip(rv, rh, sub):
+            if c["critical"] or c["reflected"]:
+                continue
+            col.count(1)
+            what = {k: c[k] for k in ("n1", "n2", "s1", "rv", "rh")}
+            if np.isnan(v) or np.isnan(h) or abs(v) > 1 + TOL or abs(h) > 1 + TOL:
+                col.violation("fresnel-modulus-above-one-" + label, dict(rep, case=what, observed=[complex(v).real, complex(h).real]))
+                return
+            if c["hasp2"] and (abs(v - fl(c["rv"])) > TOL or abs(h - fl(c["rh"])) > TOL):
+                kind = "brewster" if c["brewster"] else "normal-incidence" if c["s1"] == [0, 1] else "value"
+                col.violation("fresnel-wrong-%s-%s" % (kind, label), dict(rep, case=what, expected=[fl(c["rv"]), fl(c["rh"])],
+                                                                          observed=[float(np.real(v)), float(np.real(h))]))
+                return
+    def call(label, rep, fn, *a):
+        keep = [np.array(x, copy=True) for x in a]
+        try:
+            got = fn(*a)
+        except Exception as ex:
+            col.violation(label + "-raises-" + type(ex).__name__, dict(rep, observed=repr(ex)[:200]))
+            return None
+        if any(not np.array_equal(k, np.asarray(x), equal_nan=True) for k, x in zip(keep, a)):
+            col.violation(label + "-overwrites-input", dict(rep))
+            return None
+        return got
+    # scalar calls
+    for c in cases:
+        rep = {"abstract": {k: c[k] for k in ("n1", "n2", "s1", "c1")}}
+        th = theta_of(c["s1"])
+        got = call("snell", rep, em.snell, fl(c["n1"]), fl(c["n2"]), th)
+        if got is not None:
+            judge_snell("scalar", rep, [got], [c])
+        got = call("fresnel", rep, em.fresnel, fl(c["n1"]), fl(c["n2"]), th)
+        if got is not None:
+            judge_fresnel("scalar", rep, got, [c])
+        for a, b, r2 in c["cplx"]:
+            n2 = complex(fl(a), fl(b))
+            got = call("fresnel", rep, em.fresnel, fl(c["n1"]), n2, 0.0)
+            th2 = call("snell", rep, em.snell, fl(c["n1"]), n2, 0.0)
+            col.count(1)
+            if got is not None and th2 is not None:
+                rv, rh = got
+                if abs(abs(rv) ** 2 - fl(r2)) > TOL or abs(abs(rh) ** 2 - fl(r2)) > TOL or abs(th2) > TOL:
+                    col.violation("fresnel-complex-normal-incidence", dict(rep, n2=[fl(a), fl(b)], expected_modulus2=fl(r2),
+                                                                           observed=[abs(rv) ** 2, abs(rh) ** 2, float(th2)]))
+        if c["reflected"] or c["brewster"]:
+            col.nontrivial.add(json.dumps([c["n1"], c["n2"], c["s1"]]))
+    # arrays over the refractive indices for one incidence angle: elements straddle the critical angle
+    by_angle = {}
+    for c in cases:
+        by_angle.setdefault(json.dumps(c["s1"]), []).append(c)
+    for key, sub in sorted(by_angle.items()):
+        th = theta_of(sub[0]["s1"])
+        n1v, n2v = np.array([fl(c["n1"]) for c in sub]), np.array([fl(c["n2"]) for c in sub])
+        rep = {"abstract": {"s1": sub[0]["s1"], "arrays": "n1, n2 over the whole catalogue (%d elements)" % len(sub)}}
+        got = call("snell", rep, em.snell, n1v, n2v, th)
+        if got is not None:
+            judge_snell("array", rep, got, sub)
+        got = call("fresnel", rep, em.fresnel, n1v, n2v, th)
+        if got is not None:
+            judge_fresnel("array", rep, got, sub)
+        # broadcast: one n1 against an array of n2
+        first = sub[0]["n1"]
+        sel = [c for c in sub if c["n1"] == first]
+        got = call("snell", rep, em.snell, fl(first), np.array([fl(c["n2"]) for c in sel]), th)
+        if got is not None:
+            judge_snell("broadcast", rep, got, sel)
+    # arrays over the incidence angle for one pair of media (fresnel documents theta1 as float or ndarray)
+    by_media = {}
+    for c in cases:
+        by_media.setdefault(json.dumps([c["n1"], c["n2"]]), []).append(c)
+    for key, sub in sorted(by_media.items()):
+        ths = np.array([theta_of(c["s1"]) for c in sub])
+        rep = {"abstract": {"n1": sub[0]["n1"], "n2": sub[0]["n2"], "arrays": "theta1 over the catalogue"}}
+        got = call("fresnel", rep, em.fresnel, fl(sub[0]["n1"]), fl(sub[0]["n2"]), ths)
+        if got is not None:
+            judge_fresnel("theta-array", rep, got, sub)
+        got = call("snell", rep, em.snell, fl(sub[0]["n1"]), fl(sub[0]["n2"]), ths)
+        if got is not None:
+            judge_snell("theta-array", rep, got, sub)
+
+
 def run(ctx):
     ctx.undecided = UNDECIDED
     ctx.rule = ("TLC model-checks, over rational grids and stand-in constants c in {3, 1/2}, k in {1/2, 2}, that the unit "
                 "converters are mutually inverse, that radiance2rayleighjeansTb inverts rayleighjeans and the wavelength form "
                 "is its Jacobian image, that the spectral-density converters are inverse to each other and return an "
                 "increasing grid (reversed exactly when needed); the exact values are compared (1e-12) with the real functions "
-                "under patched typhon.constants for 1-d, 2-d and 3-d spectra. Every (c, k, grid) counts as non-trivial.")
+                "under patched typhon.constants for 1-d, 2-d and 3-d spectra. Every (c, k, grid) counts as non-trivial. "
+                "SnellProps: on the rational points of the unit circle (sines 0, 3/5, 4/5, 5/13, 12/13, 7/25, 24/25, 1) and 11 "
+                "rational refractive indices TLC checks Snell's law, total reflection only from the denser medium, |Rv|,|Rh| <= 1, "
+                "|Rv| = |Rh| at normal incidence, Rv = 0 exactly at the Brewster angle, and emits sin(theta2), Rv, Rh; snell / "
+                "fresnel are called with scalars, with arrays straddling the critical angle, broadcast and theta arrays, and "
+                "complex n2 at normal incidence. Inputs must come back unmodified.")
     d = ctx.tlc_dir("num")
     res = ctx.tlc(d, "MCEm", "MCEm.cfg", workers=1, timeout=600)
     cases = list(res.tagged("CASE"))
@@ -108,3 +236,9 @@ def run(ctx):
         ctx.notes["canary"] = "stand-in constants did not take effect: the clauses were NOT exercised"
     ctx.traces += len(cases)
     ctx.sample({k: cases[0][k] for k in ("c", "k", "fg", "f2l", "rj", "hz2m")})
+    res = ctx.tlc(d, "SnellProps", "MCSnell.cfg", workers=1, timeout=600)
+    scases = list(res.tagged("CASE"))
+    if len(scases) != 968 or not any(c["reflected"] for c in scases) or sum(1 for c in scases if c["brewster"] and c["hasp2"]) < 4:
+        raise MachineryError("unexpected snell catalogue")
+    pmap(ctx, replay_snell, [scases], procs=1)
+    ctx.traces += len(scases)
